@@ -380,6 +380,10 @@ class EltoritoEntry:
         else:
             raise pycdlibexception.PyCdlibInvalidInput("Invalid media name '%s'" % (media_name))
 
+        # The sector count is stored in a 16-bit field, in units of 512 bytes.
+        if sector_count < 0 or sector_count > 0xffff:
+            raise pycdlibexception.PyCdlibInvalidInput('Invalid El Torito sector count %d (must be between 0 and 65535); a boot file larger than that needs an explicit boot load size' % (sector_count))
+
         if bootable:
             self.boot_indicator = 0x88
         else:
